@@ -266,6 +266,27 @@ pub fn run_turntcp(run: &mut Run, live: &Live, buf_len: usize, stream: &[u8], nt
     });
 }
 
+/// RFC 4571 framing of `IceSocketWrapper::TcpStream(..).recv_from` over a real loopback connection
+pub fn run_tcp4571(run: &mut Run, live: &Live, buf_len: usize, stream: &[u8], nt: bool) {
+    let l = std::panic::AssertUnwindSafe(live);
+    let data = stream.to_vec();
+    exec(run, "tcp4571", &format!("{buf_len} {}", hex(stream)), "IceSocketWrapper::recv_from(tcp)", nt, None, move || {
+        l.rt.block_on(async {
+            use tokio::io::AsyncWriteExt;
+            let lis = tokio::net::TcpListener::bind("127.0.0.1:0").await.unwrap();
+            let addr = lis.local_addr().unwrap();
+            let writer = tokio::spawn(async move { let (mut s, _) = lis.accept().await.unwrap(); let _ = s.write_all(&data).await; let _ = s.shutdown().await; });
+            let stream = tokio::net::TcpStream::connect(addr).await.unwrap();
+            let (r, w) = stream.into_split();
+            let wrapper = rustrtc::transports::ice::IceSocketWrapper::TcpStream(Arc::new(tokio::sync::Mutex::new(r)), Arc::new(tokio::sync::Mutex::new(w)), addr);
+            let mut buf = vec![0u8; buf_len];
+            let r = wrapper.recv_from(&mut buf).await;
+            let _ = writer.await;
+            match r { Ok((n, _)) => format!("ok {n}"), Err(e) => { let t = e.to_string(); if t.starts_with("TCP STUN message too large") { "err TCP_STUN_message_too_large".into() } else { anyhow_text(&e) } } }
+        })
+    });
+}
+
 fn run_rtx(run: &mut Run, payload: &[u8], nt: bool) {
     let p = payload.to_vec();
     exec(run, "rtx", &hex(payload), "unwrap_rtx_packet", nt, Some((0, 0, 0)), move || {
@@ -384,6 +405,17 @@ pub fn special(run: &mut Run, rng: &mut Rng, thorough: bool) {
         let mut st = inner; if rng.chance(1, 3) { let k = rng.below(st.len() as u64 + 1) as usize; st.truncate(k); } if rng.chance(1, 3) { st.extend(rng.bytes(7)); }
         run_turntcp(run, &live, bl, &st, true);
     }
+    for bl in [1500usize, 8, 2, 1, 0] {
+        for len in [0u16, 1, 2, 7, 8, 9, 1499, 1500, 1501, 65535] {
+            for prov in [len as usize, (len as usize).saturating_sub(1), 0] {
+                if prov > 3000 { continue; }
+                let mut st = len.to_be_bytes().to_vec(); st.extend(std::iter::repeat(0x33).take(prov));
+                run_tcp4571(run, &live, bl, &st, true);
+                run_tcp4571(run, &live, bl, &st[..1.min(st.len())], true);
+            }
+        }
+    }
+    run_tcp4571(run, &live, 1500, &[], true);
     // RTX unwrap
     run_rtx(run, &[], false);
     for a in 0..=255u8 { run_rtx(run, &[a], false); }
@@ -395,6 +427,7 @@ pub fn replay_special(run: &mut Run, stream: &str, a: &[&str]) -> bool {
     match (stream, a.len()) {
         ("hpkt", 1) => { let l = Live::new(); run_hpkt(run, &l, &unhex(a[0]), true) }
         ("turnpkt", 2) => { let l = Live::new(); run_turnpkt(run, &l, &unhex(a[1]), true) }
+        ("tcp4571", 2) => { let l = Live::new(); run_tcp4571(run, &l, p(a[0]) as usize, &unhex(a[1]), true) }
         ("turntcp", 2) => { let l = Live::new(); run_turntcp(run, &l, p(a[0]) as usize, &unhex(a[1]), true) }
         ("rtx", 1) => run_rtx(run, &unhex(a[0]), true),
         _ => return false,
